@@ -88,7 +88,9 @@ INSTANCES = [('rj3', 'remove_jumps', [0, 0, 0]), ('qc3', 'q_correct', [0, 0, 0])
              ('sn_01010', 'copy', [0, 1, 0, 1, 0]), ('sni_0110', 'default', [0, 1, 1, 0])]
 
 
-STAGES = [['C12_math.v', 'C12_lists_thm.v'], ['C12_gen.v'], ['C12_lists_R.v']]
+STAGES = [['C12_math.v', 'C12_lists_thm.v'], ['C12_gen.v', 'C12_lerp.v'], ['C12_lists_R.v', 'C12_lerp_gen.v'],
+          ['C12_inst_a.v', 'C12_inst_b.v', 'C12_inst_c.v', 'C12_lerp_num.v'], ['C12_instances.v', 'C12.v']]
+STAGES_THOROUGH = [['C12_inst_d.v']]
 
 
 # ------------------------------------------------------------------------------------------
@@ -309,6 +311,42 @@ def _views_agree(Qa):
     return None
 
 
+def gap_rows(seed, L, angle, pre=0, post=0):
+    """[pre valid rows] a [L NaN rows] b [post valid rows]: a and b `angle` apart; everything derived from the seed"""
+    rng = np.random.default_rng(seed)
+    a = cm.rand_unit_quat(rng)
+    b = _at_angle(rng, a, angle)
+    before = [a]
+    for _ in range(pre):        # a smooth lead-in that ends at a
+        before.insert(0, _at_angle(rng, before[0], 0.05))
+    after = [b]
+    for _ in range(post):
+        after.append(_at_angle(rng, after[-1], 0.05))
+    return before + [None] * L + after
+
+
+def long_record(seed, N, nruns, maxlen, flip_p=0.02):
+    """a long smooth record with many interior NaN runs (one starting at row 1, one ending at row N-2, the others anywhere,
+    lengths 1..maxlen), sign flips with probability flip_p per row: (rows as arrays, mask)"""
+    rng = np.random.default_rng(seed)
+    rows = smooth_rows(rng, N, step=0.05)
+    sgn = 1.0
+    for i in range(N):
+        if rng.uniform() < flip_p:
+            sgn = -sgn
+        rows[i] = sgn * rows[i]
+    mask = [False] * N
+    def put(a, L):
+        for i in range(a, min(a + L, N - 1)):
+            mask[i] = True
+    put(1, int(rng.integers(1, maxlen + 1)))
+    L = int(rng.integers(1, maxlen + 1)); put(N - 1 - L, L)
+    for _ in range(nruns):
+        put(int(rng.integers(1, N - 1)), int(rng.integers(1, maxlen + 1)))
+    mask[0] = mask[N - 1] = False
+    return rows, mask
+
+
 def _rows_json(rows, mask, partial=None):
     """rows as JSON; masked rows become None (all NaN) or, when a generator `partial` is given, for about half of them a row
     with only one, two or three NaN components"""
@@ -430,6 +468,34 @@ def correspondence(ctx):
         casesI.append({**cm.d(Q, q), 't': float(ctx.rng.uniform(0, 1)), 'thr': float(ctx.rng.choice([0.9, 0.5, 0.9995]))})
     ctx.correspond('C12_slerp_I', casesI, lambda c: I['slerp_I']([c[k] for k in Q], c['t'], c['thr']), tol_ulp=256)
 
+    # ---- regenerated fixed-N instances of the in-place list code (validates the tracer's NaN-row semantics too) -----------
+    def run_inst(kind, mask, c):
+        N = len(mask)
+        first = [i for i in range(N) if not mask[i]][0]
+        rows = np.array([[c[n] for n in _row_names(i if not mask[i] else first)] for i in range(N)], float)
+        Qa = I['QA'](rows, versors=False)
+        for i in range(N):
+            if mask[i]:
+                Qa[i] = np.nan
+        if kind == 'remove_jumps':
+            Qa.remove_jumps()
+            return np.array(Qa.array)
+        if kind == 'q_correct':
+            return I['q_correct'](np.array(Qa.array))
+        if kind == 'default':
+            Qa.slerp_nan()
+            return [np.array(Qa.array), np.array(np.asarray(Qa))]
+        return Qa.slerp_nan(inplace=False)
+    for nm, kind, mask in INSTANCES:
+        N = len(mask)
+        icases = []
+        for j in range(ctx.n(24, 200)):
+            rows = smooth_rows(ctx.rng, N, step=(0.2, 0.02, 1.5)[j % 3])
+            sgn = ctx.rng.choice([-1.0, 1.0], size=N)
+            sc = 1.0 if j % 2 else float(10 ** ctx.rng.uniform(-1, 1))         # versors=False: rows need not be unit
+            icases.append({n: float(sgn[i] * sc * rows[i][k]) for i in range(N) if not mask[i] for k, n in enumerate(_row_names(i))})
+        ctx.correspond(f'C12_{nm}', icases, (lambda c, kind=kind, mask=mask: run_inst(kind, mask, c)))
+
     # ---- list models -----------------------------------------------------------------------
     seqs = nan_sequences(ctx.rng, ctx.n(40, 400))
     # boundary runs: the model must answer None (outside the property); what the code does there is recorded, not compared
@@ -443,6 +509,18 @@ def correspondence(ctx):
         if len(rows) >= 4 and j % 2:
             mask[1 + j % (len(rows) - 2)] = True
         seqs.append(('special-' + kind.split('-')[0], rows, mask))
+    # every gap length: the model's i-th interpolant has weight i/(L+1) and there are exactly L of them (all L, theorem
+    # C12_fill_weights); the code must agree with it length by length
+    # (the model is unary-nat Gallina, about L^2 steps per length: the quick tier runs L = 1..32 and every 19th length up to 260,
+    # the thorough tier every length up to 260; the search oracle `gap_sweep` runs EVERY length on the code in both tiers)
+    for L in (list(range(1, 33)) + list(range(38, 261, 19)) if ctx.quick() else range(1, 261)):
+        rows = gap_rows(1000 + L, L, (0.7, 2.4, 0.02)[L % 3], pre=L % 2, post=(L // 2) % 2)
+        mask = [r is None for r in rows]
+        a0 = next(r for r in rows if r is not None)
+        seqs.append(('gap-sweep', [a0 if r is None else r for r in rows], mask))
+    for j in range(ctx.n(1, 6)):
+        rows, mask = long_record(77 + j, (400, 800)[j % 2], (30, 80)[j % 2], (8, 40)[j % 2], flip_p=(0.02, 0.1)[j % 2])
+        seqs.append(('long-record', rows, mask))
     # (1) get_nan_intervals on masks (2-D data and 1-D data)
     masks = [m for _, _, m in seqs] + [[bool(b) for b in ctx.rng.integers(0, 2, int(ctx.rng.integers(1, 30)))] for _ in range(ctx.n(40, 400))]
     exprs = ['get_nan_intervals [%s]' % '; '.join('true' if b else 'false' for b in m) for m in masks]
@@ -742,8 +820,10 @@ def _fill_step(Qa, mode, step):
     obj = np.array(np.asarray(Qa), float)
     if not inplace:
         # copy mode: the object itself only went through the jump removal
-        if not _bits_equal(obj, orig * np.array(signs)[:, None]):
-            return {'tag': f'slerp_nan/{region}/copy-mode-object-rows', 'observed': obj, 'expected': orig * np.array(signs)[:, None]}
+        # after fixes/C12-slerp-nan-copy-mode.patch the object is untouched; before it, it shows the jump-removed input
+        # (C19 records that mutation); anything else is a violation here
+        if not _bits_equal(obj, orig) and not _bits_equal(obj, orig * np.array(signs)[:, None]):
+            return {'tag': f'slerp_nan/{region}/copy-mode-object-rows', 'observed': obj, 'expected': orig}
     res = obj if inplace else np.asarray(r[1], float)
     if res.shape != orig.shape:
         return {'tag': f'slerp_nan/{region}/shape', 'observed': res.shape, 'expected': orig.shape}
@@ -772,6 +852,93 @@ def _fill_step(Qa, mode, step):
             if _ulps(ri, e) > 64:
                 return {'tag': f'slerp_nan/{region}/fill-differs-from-slerp', 'observed': ri, 'expected': e}
     return None
+
+
+def _angles(u, V):
+    """great-circle angles between the unit vector u and the rows of V (accurate for tiny and near-pi angles)"""
+    return 2.0 * np.arctan2(np.linalg.norm(V - u, axis=1), np.linalg.norm(V + u, axis=1))
+
+
+def _check_fill_fast(rows, orig, res, region):
+    """the slerp_nan clause on a (possibly long) array, vectorised per run: count, no NaN, valid rows, weights k/(L+1), geodesic"""
+    I = _impl()
+    mask = [_nanrow(r) for r in rows]
+    runs = _max_runs(mask)
+    if res.shape != orig.shape:
+        return {'tag': f'slerp_nan/{region}/shape', 'observed': res.shape, 'expected': orig.shape}
+    if np.isnan(res).any():
+        bad_rows = [int(i) for i in np.where(np.isnan(res).any(axis=1))[0]]
+        return {'tag': f'slerp_nan/{region}/nan-left', 'observed': bad_rows[:20], 'expected': 'no NaN in the output'}
+    signs = np.array(_jump_signs(rows))
+    valid = ~np.array(mask)
+    exp = orig * signs[:, None]
+    if not _bits_equal(res[valid], exp[valid]):
+        i = int(np.where(valid)[0][np.where(np.any(res[valid] != exp[valid], axis=1))[0][0]])
+        return {'tag': f'slerp_nan/{region}/valid-row-changed', 'observed': [i, res[i]], 'expected': exp[i]}
+    for (i0, i1) in runs:
+        a, b = exp[i0 - 1], exp[i1 + 1]
+        L = i1 - i0 + 1
+        t = np.arange(1, L + 1) / (L + 1.0)          # the i-th weight is i/(L+1), i = 1..L
+        bn = -b if float(a @ b) < 0 else b
+        th0 = _angle(a, bn)
+        R = res[i0:i1 + 1]
+        if np.max(np.abs(np.linalg.norm(R, axis=1) - 1)) > TOL:
+            return {'tag': f'slerp_nan/{region}/fill-not-unit', 'observed': [i0, i1], 'note': f'gap length {L}'}
+        a1, a2 = _angles(a, R), _angles(bn, R)
+        tol = _lerp_dev_bound(th0) if abs(float(a @ b)) > THR else ANG_TOL
+        k = int(np.argmax(np.abs(a1 - t * th0)))
+        if np.max(np.abs(a1 + a2 - th0)) > ANG_TOL or abs(a1[k] - t[k] * th0) > tol:
+            return {'tag': f'slerp_nan/{region}/fill-not-on-geodesic', 'observed': [i0 + k, float(a1[k])], 'expected': float(t[k] * th0),
+                    'note': f'gap length {L}, weight {k + 1}/{L + 1}'}
+        E = np.asarray(I['quaternion'](a, b, np.linspace(0, 1, L + 2)[1:-1]), float)
+        if _ulps(R, E) > 64:
+            return {'tag': f'slerp_nan/{region}/fill-differs-from-slerp', 'observed': [i0, i1], 'note': f'gap length {L}'}
+    return None
+
+
+def o_gap_sweep(inp):
+    """one interior NaN run of a GIVEN length L between two valid rows (optionally with rows before / after): L interpolants,
+    the i-th at weight i/(L+1), for every L"""
+    L, mode = int(inp['L']), inp.get('inplace', False)
+    mode = 'default' if mode == 'default' else bool(mode)
+    rows = gap_rows(int(inp['seed']), L, float(inp['angle']), int(inp.get('pre', 0)), int(inp.get('post', 0)))
+    rows = [None if r is None else [float(x) for x in r] for r in rows]
+    Qa = _qarray(rows)
+    orig = np.array(Qa.array, float)
+    r = call_outcome((lambda: Qa.slerp_nan()) if mode == 'default' else (lambda: Qa.slerp_nan(inplace=mode)))
+    region = 'gap-sweep'
+    if r[0] == 'raise':
+        return {'tag': f'slerp_nan/{region}/raises-{r[1]}', 'observed': list(r[1:]), 'note': f'gap length {L}'}
+    res = np.array(np.asarray(Qa), float) if mode in ('default', True) else np.asarray(r[1], float)
+    return _check_fill_fast(rows, orig, res, region)
+
+
+def o_long(inp):
+    """long records (hundreds to thousands of rows) with many NaN runs / many jumps, generated from a seed: slerp_nan,
+    remove_jumps / q_correct, get_nan_intervals"""
+    kind = inp['kind']
+    rows, mask = long_record(int(inp['seed']), int(inp['N']), int(inp['nruns']), int(inp['maxlen']), float(inp.get('flip_p', 0.02)))
+    if kind == 'nan_intervals':
+        m = list(mask)
+        if inp.get('ends'):          # for get_nan_intervals itself runs at the two ends are ordinary maximal runs
+            m[0] = m[-1] = m[-2] = True
+        return o_nan_intervals({'mask': m, 'ndim': int(inp.get('ndim', 2))})
+    if kind in ('remove_jumps', 'q_correct'):
+        rj = _rows_json(rows, [False] * len(rows)) if not inp.get('with_nan') else _rows_json(rows, mask)
+        return o_remove_jumps({'rows': rj, 'entry': kind})
+    rj = _rows_json(rows, mask)
+    mode = inp.get('inplace', False)
+    mode = 'default' if mode == 'default' else bool(mode)
+    Qa = _qarray(rj)
+    orig = np.array(Qa.array, float)
+    r = call_outcome((lambda: Qa.slerp_nan()) if mode == 'default' else (lambda: Qa.slerp_nan(inplace=mode)))
+    if r[0] == 'raise':
+        return {'tag': f'slerp_nan/long-record/raises-{r[1]}', 'observed': list(r[1:])}
+    va = _views_agree(Qa)
+    if va is not None:
+        return {'tag': 'slerp_nan/long-record/views-disagree', 'observed': va[0]}
+    res = np.array(np.asarray(Qa), float) if mode in ('default', True) else np.asarray(r[1], float)
+    return _check_fill_fast(rj, orig, res, 'long-record')
 
 
 def o_slerp_nan(inp):
@@ -829,6 +996,7 @@ def o_slerp_I(inp):
 
 
 ORACLES = {'slerp': o_slerp, 'nan_intervals': o_nan_intervals, 'remove_jumps': o_remove_jumps, 'slerp_nan': o_slerp_nan,
+           'gap_sweep': o_gap_sweep, 'long': o_long,
            'slerp_I': o_slerp_I}
 
 
@@ -906,6 +1074,23 @@ def search(ctx, scale):
             rj[1 + len(region) % L] = [0.5, None, 0.5, 0.5]
         inp = {'rows': rj, 'inplace': (False, 'default', True)[L % 3]}
         ctx.check('slerp_nan', inp, _call(o_slerp_nan, inp, 'slerp_nan'), nontrivial_key=('sn-pair', region, L, tuple(np.round(q, 6))))
+    # EVERY gap length 1..260 (thorough: ..1000) at least once per run: count, weights i/(L+1), geodesic placement
+    angles = (0.7, 2.4, 0.02, 1.5707963267948966, 3.0, 1e-4)
+    for L in range(1, (260 if scale == 1 else 1000) + 1):
+        inp = {'seed': int(ctx.seed % 100000) + L, 'L': L, 'angle': angles[L % len(angles)], 'inplace': ('default', False, True)[L % 3],
+               'pre': (0, 2, 5)[L % 3], 'post': (0, 3, 1)[(L // 3) % 3]}
+        ctx.check('gap_sweep', inp, _call(o_gap_sweep, inp, 'slerp_nan/gap-sweep'), nontrivial_key=('gap', L))
+    # long records: many intervals (incl. one starting at row 1 and one ending at the last interior row), many jumps, long masks
+    for j in range(6 * scale):
+        N = (300, 1000, 2500, 64, 129, 512)[j % 6]
+        base = {'seed': int(ctx.seed % 100000) + 7 * j, 'N': N, 'nruns': (5, 40, 120)[j % 3], 'maxlen': (3, 12, 60)[(j // 2) % 3]}
+        inp = {**base, 'kind': 'slerp_nan', 'inplace': ('default', False, True)[j % 3], 'flip_p': (0.0, 0.02, 0.2)[j % 3]}
+        ctx.check('long', inp, _call(o_long, inp, 'slerp_nan/long-record'), nontrivial_key=('long-sn', j))
+        for kind in ('remove_jumps', 'q_correct'):
+            inp = {**base, 'kind': kind, 'flip_p': (0.3, 0.02, 0.5)[j % 3], 'with_nan': bool(j % 2)}
+            ctx.check('long', inp, _call(o_long, inp, kind + '/long-record'), nontrivial_key=('long-' + kind, j))
+        inp = {**base, 'kind': 'nan_intervals', 'ends': bool(j % 2), 'ndim': 1 + j % 2}
+        ctx.check('long', inp, _call(o_long, inp, 'get_nan_intervals/long-record'), nontrivial_key=('long-gni', j))
     for N in (1, 2, 3, 4, 5, 7):       # particular lengths, no NaN: the zero-run case of "valid rows unchanged"
         inp = {'rows': _rows_json(smooth_rows(rng, N), [False] * N), 'inplace': ('default', True, False)[N % 3]}
         if N >= 3:
